@@ -26,6 +26,16 @@ func calleeKey(c *ssa.CallCommon) string {
 	if f := c.StaticCallee(); f != nil {
 		return fnKeyOf(f)
 	}
+	// call of a function stored in a struct field: keyed like a method of the struct, `(*pkg.T).field`
+	if u, ok := c.Value.(*ssa.UnOp); ok {
+		if fa, ok := u.X.(*ssa.FieldAddr); ok {
+			if pt, ok := fa.X.Type().Underlying().(*types.Pointer); ok {
+				if st, ok := pt.Elem().Underlying().(*types.Struct); ok {
+					return "(*" + typeKey(pt.Elem()) + ")." + st.Field(fa.Field).Name()
+				}
+			}
+		}
+	}
 	return ""
 }
 
@@ -270,6 +280,10 @@ func (fr *Frame) applyContract(site ssa.Instruction, fc *FuncContract, key strin
 			post.vars["result"] = v
 		}
 	}
+	for _, e := range fc.Assumes {
+		ex.assume(reach, post.evalBool(e))
+		ex.assumed["assumed (unproved) postcondition of "+shortKey(key)+" ("+relPath(e.where())+"): "+e.Text] = true
+	}
 	for _, e := range fc.Ensures {
 		if fc.Pure {
 			// a pure function is total and deterministic: its postcondition holds of the application term everywhere
@@ -493,7 +507,6 @@ func (fr *Frame) builtin(site ssa.Instruction, b *ssa.Builtin, c *ssa.CallCommon
 		ex.set(st, has, ite(eq(m, tNil), hc, store(hc, m, store(sel(hc, m), k, tFalse))))
 		return nil
 	case "close":
-		fr.ghostAt("call", fr.callOrd[site], "close", "after", reach, st, map[string]Val{"ch": {t: arg(0), typ: c.Args[0].Type()}})
 		return nil
 	case "panic":
 		fr.safety("panic", site, reach, tFalse, "explicit panic is unreachable")
